@@ -11,6 +11,7 @@ Driver commands of property C02 (core Lean only).  Command names start with "c02
 -/
 import Hts.Drv.Util
 import Hts.Model.BgzfReader
+import Hts.Drv.C02Lts
 namespace Hts.Drv.C02
 open Hts.Drv Hts.Model.Bgzf Hts.Spec.Flat
 
@@ -106,6 +107,6 @@ def handle (cmd : String) (args : List String) : Option String :=
     if validOps (layoutOf f) ops then
       some (";".intercalate ((Hts.Spec.Flat.run (flatOf f) init ops).map showObs))
     else some "invalid-history"
-  | _, _ => none
+  | c, a => Hts.Drv.C02Lts.handle c a
 
 end Hts.Drv.C02
